@@ -3,14 +3,14 @@
 D=$(realpath $1); PROP=$2; NEEDS=$3
 S=/tmp/confirm_$$; rm -rf $S; cp -a /repo $S; mkdir -p $S/_seed; cp $D/demo.py $S/_seed/
 cd $S
-sed -i "s#/tmp/seed_[A-Za-z0-9_]*#$S#g" _seed/demo.py
+sed -i "s#/tmp/seed[0-9]*_[A-Za-z0-9_]*#$S#g" _seed/demo.py
 PYTHONPATH=$S /venv/bin/python _seed/demo.py >/tmp/confirm_clean.log 2>&1; RC_CLEAN=$?
 git apply $D/patch.diff || { echo "PATCH DOES NOT APPLY"; cd /; rm -rf $S; exit 8; }
 PYTHONPATH=$S /venv/bin/python _seed/demo.py >/tmp/confirm_patched.log 2>&1; RC_PATCHED=$?
 SUITE=$(PYTHONPATH=$S /venv/bin/python -m pytest -q -p no:cacheprovider --timeout=900 --continue-on-collection-errors --color=no -n 16 2>&1 | tail -1)
 cd /; rm -rf $S
 echo "demo clean=$RC_CLEAN patched=$RC_PATCHED suite: $SUITE"
-CHK=$(cd /verif && tools/try_seed.sh $D/patch.diff $PROP 2>&1 | grep -E "^== |finding" | tr '\n' ' ')
+CHK=$(cd /verif && python3-vt tools/try_seed_mem.py $D/patch.diff $PROP 2>&1 | grep -E "^== " | tr '\n' ' ')
 python3 - "$D" "$PROP" "$NEEDS" "$RC_CLEAN" "$RC_PATCHED" "$SUITE" "$CHK" <<'PY'
 import json,sys,subprocess
 d,prop,needs,rc0,rc1,suite,chk=sys.argv[1:8]
